@@ -596,6 +596,65 @@ func (env *Env) callSpec(n *ECall) Val {
 			}
 		}
 		fail("no field %s", fn.V)
+	case "fieldaddr":
+		// fieldaddr(p, "f"): the address &p.f as the integer identity the generator gives derived addresses
+		v := arg(0)
+		fn, ok := n.Args[1].(*EStr)
+		if !ok {
+			fail("fieldaddr(p, \"field\") expected")
+		}
+		pt, ok := v.Ty.Underlying().(*types.Pointer)
+		if !ok {
+			fail("fieldaddr of non-pointer")
+		}
+		l := &Loc{Heap: s.CellHeap(pt.Elem()), Ref: v.T, RootTy: pt.Elem()}
+		cur := pt.Elem()
+		for _, fname := range strings.Split(fn.V, ".") {
+			st, ok := cur.Underlying().(*types.Struct)
+			if !ok {
+				fail("fieldaddr: %s is not a struct", cur)
+			}
+			found := false
+			for i := 0; i < st.NumFields(); i++ {
+				if st.Field(i).Name() == fname {
+					l.Path = append(l.Path, PathStep{Field: i, Ty: cur})
+					cur = st.Field(i).Type()
+					found = true
+					break
+				}
+			}
+			if !found {
+				fail("no field %s", fname)
+			}
+		}
+		return env.addrOf(Val{Ty: types.NewPointer(cur), Loc: l})
+	case "iface":
+		// iface(x, "*ssa.BinOp"): x converted to an interface value (what a Go conversion of x produces)
+		v := arg(0)
+		tn, ok := n.Args[1].(*EStr)
+		if !ok {
+			fail("iface(x, \"type\") expected")
+		}
+		ty := env.e.W.ResolveType(tn.V, env.pkg)
+		if ty == nil {
+			fail("unknown type %s", tn.V)
+		}
+		tid := env.e.W.TypeID(ty)
+		return Val{T: env.e.W.UF(fmt.Sprintf("box.%d", tid), []string{s.SortOf(ty)}, "Int", v.T), Ty: tInt}
+	case "typed":
+		// typed(x, "T"): true, but only meaningful where x has exactly the Go type T (otherwise the clause is out of scope)
+		v := arg(0)
+		tn, ok := n.Args[1].(*EStr)
+		ty := (types.Type)(nil)
+		if ok {
+			ty = env.e.W.ResolveType(tn.V, env.pkg)
+		}
+		if ty == nil || v.Ty == nil || !types.Identical(v.Ty, ty) {
+			fail("typed: value does not have type %v here", n.Args[1])
+		}
+		return Val{T: "true", Ty: tBool}
+	case "bitand":
+		return Val{T: env.e.W.UF("bits.and", []string{"Int", "Int"}, "Int", arg(0).T, arg(1).T), Ty: tInt}
 	case "hasType", "dyn":
 		// hasType(x, "*ssa.BinOp"): the dynamic type of interface value x; dyn(x, "*ssa.BinOp"): its payload
 		v := arg(0)
@@ -628,7 +687,11 @@ func (env *Env) callSpec(n *ECall) Val {
 		if !ok {
 			fail("purecall %s: result sort unknown (the function is not called in the code under contract)", nm.V)
 		}
-		return Val{T: env.e.W.UF("pure."+mangle(nm.V), sorts, rs, ts...), Sort: rs, Ty: goTypeOfSort(rs)}
+		rty := env.e.W.pureResultType[nm.V]
+		if rty == nil {
+			rty = goTypeOfSort(rs)
+		}
+		return Val{T: env.e.W.UF("pure."+mangle(nm.V), sorts, rs, ts...), Sort: rs, Ty: rty}
 	case "errmsg":
 		return Val{T: env.e.W.UF("errmsg", []string{"Int"}, "String", arg(0).T), Ty: tString}
 	case "isNotExist":
